@@ -619,12 +619,13 @@ class C04(Prop):
                 else:
                     a = H.html_escape(a)
             res = H.HTML(a) + b if g["order"] == 0 else a + H.HTML(b)
+            a_obj, b_obj = a, b          # the operands as they are (a string that came out of html_escape() included)
             a, b = str.__str__(a) if isinstance(a, str) else a, str.__str__(b) if isinstance(b, str) else b
             pieces = [("raw", a), ("esc", b)] if g["order"] == 0 else [("esc", a), ("raw", b)]
             seg = segment(lambda x: f(x), H.HTML(MARK), res)
             seg2 = segment(lambda x: f("k", x), H.HTML(MARK), res)
             # compared without layout whitespace (a block tag puts one text child on one line, two children on three)
-            adj = f(H.HTML(a), b, _add_ws=False) if g["order"] == 0 else f(a, H.HTML(b), _add_ws=False)
+            adj = f(H.HTML(a), b_obj, _add_ws=False) if g["order"] == 0 else f(a_obj, H.HTML(b), _add_ws=False)
             recs = []
             for sg in (seg, seg2):
                 recs.append(seg_or_flag("C04", "text", pieces, sg, g))
